@@ -23,11 +23,15 @@ ASSUME = ["A2: container counts < 2^29 and lengths cast to i32 < 2^31", "A3: dev
 
 
 def check(ctx, run):
-    run.rules_run = ['R20.1', 'R20.2', 'R20.3']
+    run.rules_run = ['R20.1', 'R20.2', 'R20.3', 'R20.4']
     recursion.rrec(ctx, run, 'R20.1', ENTRY, {'document'}, 'recursion on document nesting depth', floor=5)
     cg = recursion.augment(ctx)
     cone = cg.reachable([e for e in ENTRY if e in ctx.facts.bodies])
     run.floor('R20.2', 'C20 entry points', len([e for e in ENTRY if e in ctx.facts.bodies]), 16)
-    intarith.overflow_sites(ctx, run, 'R20.2', cone, floor=6, label='position arithmetic on a narrow integer')
+    # the path and key-path parsers feed the index arithmetic (`last - N`, negative indices): their own narrow-integer arithmetic belongs to the same cone
+    pcone = cg.reachable([e for e in ('jsonpath::parser::parse_json_path', 'keypath::parse_key_paths') if e in ctx.facts.bodies])
+    intarith.overflow_sites(ctx, run, 'R20.2', sorted(set(cone) | set(pcone)), floor=6, label='position arithmetic on a narrow integer')
     intarith.table_index_sites(ctx, run, 'R20.3', cone, floor=1)
+    from rules import c08 as _c08
+    _c08.r08_4(ctx, run, rule='R20.4/R08.4')
     return report.finish(run, level='other', explanation=EXPLANATION, assumptions=ASSUME)
